@@ -1615,7 +1615,19 @@ func (e *Engine) binop(s *State, x *ssa.BinOp, a, b Value) (Value, []*State, boo
 		_, signed, _ := width(x.X.Type())
 		if isFloat(x.X.Type()) {
 			switch x.Op {
-			case token.EQL, token.NEQ, token.LSS, token.GTR, token.LEQ, token.GEQ, token.ADD, token.SUB, token.MUL, token.QUO:
+			case token.EQL:
+				return fpEq(av, bv), nil, true
+			case token.NEQ:
+				return Not(fpEq(av, bv)), nil, true
+			case token.LSS:
+				return fpLt(av, bv), nil, true
+			case token.GTR:
+				return fpLt(bv, av), nil, true
+			case token.LEQ:
+				return Or(fpLt(av, bv), fpEq(av, bv)), nil, true
+			case token.GEQ:
+				return Or(fpLt(bv, av), fpEq(av, bv)), nil, true
+			case token.ADD, token.SUB, token.MUL, token.QUO:
 				panic(engineUnsupported("floating-point arithmetic at " + e.site(x.Pos())))
 			}
 		}
@@ -2091,4 +2103,37 @@ func (e *Engine) pathCap() int {
 		return e.maxPaths
 	}
 	return 20000
+}
+
+// IEEE-754 comparisons on bit patterns (the engine keeps floats as their bits): NaN compares unequal and
+// unordered with everything, +0 and -0 are equal.
+func fpParts(a *Term) (nan, zero *Term) {
+	w := a.W
+	mbits := 23
+	if w == 64 {
+		mbits = 52
+	}
+	exp := Extract(w-2, mbits, a)
+	man := Extract(mbits-1, 0, a)
+	nan = And(Eq(exp, C(exp.W, mask(exp.W))), Not(Eq(man, C(man.W, 0))))
+	zero = Eq(Extract(w-2, 0, a), C(w-1, 0))
+	return
+}
+
+func fpEq(a, b *Term) *Term {
+	na, za := fpParts(a)
+	nb, zb := fpParts(b)
+	return And(Not(na), Not(nb), Or(Eq(a, b), And(za, zb)))
+}
+
+func fpLt(a, b *Term) *Term {
+	na, za := fpParts(a)
+	nb, zb := fpParts(b)
+	w := a.W
+	sign := C(w, uint64(1)<<uint(w-1))
+	key := func(t *Term) *Term {
+		neg := Eq(Extract(w-1, w-1, t), C(1, 1))
+		return Ite(neg, Bin("bvxor", t, C(w, mask(w))), Bin("bvor", t, sign))
+	}
+	return And(Not(na), Not(nb), Not(And(za, zb)), Lt(key(a), key(b), false))
 }
